@@ -17,14 +17,14 @@ ASSUMPTIONS_COMMON = [
 
 PROP_ASSUMPTIONS = {}
 EXPLAIN = {
-    "C05": "Mixed: combine_composition, the composition branch of Labware.add, get_well_composition and the removal frame are proved together with the mixing-algebra lemmas (coverage.obligations/discharged); operation histories, conservation across labware and the naming rules are explored by the bounded exact-arithmetic monitor (coverage.bounded).",
+    "C05": "Mixed: combine_composition, the composition branch of Labware.add, get_well_composition, the removal frame, the initial naming (get_initial_composition, get_trough_component_names, Trough.__init__ on small concrete shapes) are proved together with the mixing-algebra lemmas (coverage.obligations/discharged); operation histories, conservation across labware and naming on larger shapes are explored by the bounded exact-arithmetic monitor (coverage.bounded).",
     "C18": "Mixed: optimize_partition_by (all cases) and partition_by_column for 0-3 symbolic triples are proved (coverage.obligations/discharged); longer lists are explored by the bounded monitor (coverage.bounded).",
     "C15": "Mixed: WellShifter and WellRotator are proved (coverage.obligations/discharged, incl. inverse lemmas); WellRandomizer is explored by the bounded monitor (coverage.bounded).",
     "C07": "Mixed: both transfer bodies are proved on 1-triple (quick) / 2-triple (thorough) symbolic shapes without splitting (coverage.obligations/discharged); longer lists, permutations, large-volume splitting and break records are explored by the bounded monitor (coverage.bounded).",
     "C16": "Mixed: syntactic relational obligations between the two transfer bodies, hierarchy and call-site obligations (backend 'ast') and the two refusing base methods (z3) are discharged deductively; operation programs on both devices are compared by the bounded differential monitor (coverage.bounded).",
-    "C13": "Mixed: commands.evo_aspirate/evo_dispense are proved against the EVOware rope of their arguments for 1-2 wells (coverage.obligations/discharged); the worklist methods (tracking agrees with the command), evo_wash and longer lists are explored by the bounded monitor (coverage.bounded).",
+    "C13": "Mixed: commands.evo_aspirate/evo_dispense (1-2 wells), evo_wash, require_single_column_selection (any shape) and the EvoWorklist.evo_* methods are proved against the EVOware rope of their arguments, the tracked update and the step limit (coverage.obligations/discharged); longer lists and sessions are explored by the bounded monitor (coverage.bounded).",
     "C01": "Mixed: aspirate/dispense (and the functions they rest on: Labware.add/remove, aspirate_well/dispense_well, both get_well_position) are proved (coverage.obligations/discharged); operation sequences, transfer with splitting, distribute and compositions are explored by the bounded replay monitor (coverage.bounded) and not counted as proved.",
     "C03": "Mixed: exceptional postconditions of aspirate/dispense/aspirate_well/dispense_well/__exit__ are proved at every raise exit (coverage.obligations/discharged); failing operation sequences are explored by the bounded fault-injection monitor (coverage.bounded).",
-    "C20": "Mixed: Labware.__init__ is proved to establish wf(L) / raise ValueError (coverage.obligations/discharged); Trough.__init__, the trough naming helper and the initial composition are explored by the bounded monitor (coverage.bounded), not proved.",
+    "C20": "Mixed: Labware.__init__ (symbolic shape) and Trough.__init__ (1-2 columns, helpers inlined) are proved to establish wf(L) / raise ValueError, get_initial_composition and get_trough_component_names are proved for small concrete shapes (coverage.obligations/discharged); larger shapes of the naming helpers and special values are explored by the bounded monitor (coverage.bounded), not proved.",
     "C11": "Mixed: the labware functions (add, remove, log, condense_log, volumes, history) are proved against sequence postconditions (coverage.obligations/discharged); the operation-level clauses (one entry per transfer/distribute per labware, LVH note) are explored by the bounded monitor listed under coverage.bounded and are not counted as proved.",
 }
